@@ -21,8 +21,8 @@ META = {
                    "roots of the singular values on the diagonal, zeros elsewhere, stored vectors are U^H.  The FDD / FDD_MS run "
                    "and mpe methods and the first stage of EFDD_mpe are shown to hand the stored decomposition, the grid and the "
                    "user's DF to FDD_mpe unchanged.",
-    "bounds": {"quick": {"lines": "4..5", "channels": "2..3", "requests": "1", "svalsvec": "2x2 and 3x2 spectra, 2 lines"},
-               "thorough": {"lines": "4..7", "channels": "2..3", "requests": "1..2"}},
+    "bounds": {"quick": {"lines": "4", "channels": "2..3", "requests": "1", "svalsvec": "2x2 and 3x2 spectra, 2 lines"},
+               "thorough": {"lines": "4..6", "channels": "2..3", "requests": "1..2"}},
     "stubs": ["np.linalg.svd: fresh U (symbolic complex), S (symbolic >= 0, non-increasing), V; contract U diag(S) V^H = M, U unitary "
               "(only layout obligations use it)", "np.sqrt of a symbol: shared uninterpreted uf_sqrt"],
     "assumptions": ["second singular value > 0 at every line", "the singular vector at the chosen line is non-zero",
@@ -33,10 +33,10 @@ META = {
 
 def jobs(tier):
     out = []
-    nfs = (4, 5) if tier == "quick" else (4, 5, 6, 7)
+    nfs = (4,) if tier == "quick" else (4, 5, 6)
     for nf in nfs:
         for nch in (2, 3):
-            if tier == "quick" and nf == 5 and nch == 3:
+            if nf == 6 and nch == 3:
                 continue
             out.append({"ob": "O1", "cfg": {"nf": nf, "nch": nch, "nreq": 1}})
     if tier != "quick":
